@@ -94,6 +94,7 @@ inductive Op
   | reverse
   | getitem (ix : Index)
   | concat (others : List SRecipe)
+  | badItem (onValues : Bool)     -- `obj.argvals[k] = w` / `obj.values[k] = w` with `k` or `w` of a wrong class
   deriving DecidableEq, Repr
 
 inductive Out
@@ -483,6 +484,14 @@ def step (guard : Bool) (s : State) (op : Op) : State × Out :=
         | .ok ss => match allMulti ss with
           | none => .error .other
           | some ms => (concatMulti (cs :: ms)).map State.multi)
+
+  | .badItem onValues =>
+    -- item assignment into the typed dictionaries (`DenseArgvals`, `IrregularArgvals`, `IrregularValues`):
+    -- a key or a value of the wrong class — also one that is itself an `Argvals` / `Values` — is a `TypeError`;
+    -- the values of a dense object are an array, not a typed dictionary
+    match s with
+    | .uni x => if onValues && x.isDense then (s, .na) else (s, .err .typeError)
+    | _ => (s, .na)
 
 /-- The state after a history. -/
 def run (guard : Bool) (s : State) (ops : List Op) : State :=
